@@ -18,7 +18,8 @@ from . import world as W
 _G = {}
 
 
-def _init_worker(consts, init, caching, vertex_cls_name):
+def _init_worker(consts, init, caching, vertex_cls_name, cache_mode=None):
+    _G["cache_mode"] = cache_mode
     from edgegraph.structure import Vertex
     from . import probes as P
     Vertex.NEIGHBOR_CACHING = caching
@@ -38,7 +39,11 @@ def _run_task(task):
         after = w.project()
         return ("probe", S, pr, after)
     out = []
+    cm = _G.get("cache_mode")
     for c in calls:
+        if cm is not None:
+            out.append(_run_cached(path, c, cm))
+            continue
         w = W.World(_G["consts"], _G["init"], _G["vcls"])
         for pc in path:
             w.apply(pc)
@@ -47,6 +52,31 @@ def _run_task(task):
         post = w.project()
         out.append((pre, c, res, post))
     return out
+
+
+def _run_cached(path, c, cm):
+    """C05 binding: keep every memo as warm as possible, mutate, then ask everything again (flag on)."""
+    from edgegraph.structure import Vertex
+    from . import probes as P
+    spec, variant = cm["spec"], cm["variant"]
+    if variant == "sampled":        # the cheaper variants are applied to a deterministic sample
+        variant = ("offmut", "buildoff", "on")[P.h(path, c) % 3]
+    Vertex.NEIGHBOR_CACHING = variant != "buildoff"
+    w = W.World(_G["consts"], _G["init"], _G["vcls"])
+    for pc in path:
+        w.apply(pc)
+        if variant != "buildoff":
+            P.run(w, w.project(), spec)              # warm after every step
+    Vertex.NEIGHBOR_CACHING = True
+    P.run(w, w.project(), spec)                      # warm in the state the call is made in
+    pre = w.project()
+    if variant == "offmut":
+        Vertex.NEIGHBOR_CACHING = False
+    res = w.apply(c)
+    Vertex.NEIGHBOR_CACHING = True
+    post = w.project()
+    probes = P.run(w, post, spec)                    # answers with the flag on (hits where entries survived)
+    return (pre, c, res, post, probes, variant)
 
 
 def parse_transitions(lines):
@@ -63,7 +93,7 @@ def parse_transitions(lines):
 
 
 def explore(consts, init_state, calls_at, model_states, *, caching=False, procs=16, max_records=None,
-            probe=None, vertex_cls=None, keep_records=True, probe_filter=None):
+            probe=None, vertex_cls=None, keep_records=True, probe_filter=None, cache_mode=None):
     """probe: a picklable spec for harness.probes.run, evaluated once in every confirmed state
     (optionally only where probe_filter(state_key) is true)."""
     ctx = mp.get_context("fork")
@@ -74,7 +104,7 @@ def explore(consts, init_state, calls_at, model_states, *, caching=False, procs=
     nrec = 0
     offmodel = 0
     level = 0
-    with ctx.Pool(procs, initializer=_init_worker, initargs=(consts, init_state, caching, vertex_cls)) as pool:
+    with ctx.Pool(procs, initializer=_init_worker, initargs=(consts, init_state, caching, vertex_cls, cache_mode)) as pool:
         while frontier:
             tasks = []
             for ks in frontier:
@@ -91,9 +121,13 @@ def explore(consts, init_state, calls_at, model_states, *, caching=False, procs=
                     _, S, pr, after = outs
                     probed.append({"id": len(probed) + 1, "S": S, "probes": pr, "after": after, "path": path})
                     continue
-                for pre, c, res, post in outs:
+                for tup in outs:
+                    pre, c, res, post = tup[:4]
                     nrec += 1
                     rid = nrec
+                    if cache_mode is not None:
+                        probed.append({"id": rid, "S": post, "probes": tup[4], "path": path, "call": c,
+                                       "pre": pre, "variant": tup[5]})
                     if keep_records:
                         records.append({"id": rid, "pre": pre, "c": c, "res": res, "post": post,
                                         "cls": W.alias_class(pre, c), "plen": len(path)})
@@ -112,7 +146,7 @@ def explore(consts, init_state, calls_at, model_states, *, caching=False, procs=
              "unconfirmed_states": len(model_states) - len(confirmed), "offmodel_posts": offmodel,
              "levels": level, "records": nrec, "probed_states": len(probed),
              "probes": sum(len(p["probes"]) for p in probed)}
-    if probe is not None:
+    if probe is not None or cache_mode is not None:
         return records, confirmed, stats, probed
     return records, confirmed, stats
 
